@@ -15,6 +15,7 @@ each way of leaving the analysed block, the abstract state and the trace.
 A construct outside the modelled subset raises AnalysisError."""
 import ast
 import copy
+import re
 
 from .report import AnalysisError
 from . import model as M
@@ -230,6 +231,14 @@ class State:
         return s
 
     def emit(self, ev):
+        try:
+            hash(ev)
+        except TypeError:
+            ev = tuple(x if not isinstance(x, (list, dict, set, tuple)) else repr(x) for x in ev)
+            try:
+                hash(ev)
+            except TypeError:
+                ev = tuple(repr(x) for x in ev)
         self.trace = self.trace + (ev,)
 
     def get(self, name, default=TOP):
@@ -272,6 +281,53 @@ def _freeze(v, _depth=0, _seen=None):
         return repr(v)
 
 
+import os as _os
+_TRACE_EXC = bool(_os.environ.get('VERIF_TRACE_EXC'))
+_FRAME_LOCAL = re.compile(r'__(iter|list|exitstacks)@\d+$|__handling$')
+
+
+class _ModuleScope:
+    """Stands for 'code at the top level of a module' where the interpreter needs a scope for name resolution."""
+    def __init__(self, mod):
+        self.module, self.cls, self.node, self.name, self.qualname = mod, None, None, '<module>', '<module>'
+        self.fullname = mod.name + '.<module>'
+        self.path = mod.path
+
+
+class Partial:
+    """functools.partial(f, *args, **kwargs) as a value"""
+    def __init__(self, func, args, kwargs):
+        self.func, self.args, self.kwargs = func, tuple(args), dict(kwargs)
+
+    def __repr__(self):
+        return 'Partial(%r)' % (self.func,)
+
+
+class OpCall:
+    """operator.methodcaller / attrgetter / itemgetter as values"""
+    def __init__(self, kind, names, args=(), kwargs=None):
+        self.kind, self.names, self.args, self.kwargs = kind, tuple(names), tuple(args), dict(kwargs or {})
+
+    def __repr__(self):
+        return '%s%r' % (self.kind, self.names)
+
+
+class _NoteList(list):
+    """The imprecision notes of one interpreter; heap-mode interpreters also report into the module-wide log that the
+    verdict functions of sa/report.py consult (a FAIL drawn from an imprecise interpretation is no verdict)."""
+    def __init__(self, shared=None):
+        list.__init__(self)
+        self.shared = shared
+
+    def append(self, x):
+        list.append(self, x)
+        if self.shared is not None:
+            self.shared.append(x)
+
+
+IMPRECISION = []          # notes of heap-mode interpretations since the last verdict (drained by sa/report.py)
+
+
 class Hooks:
     """Override points for a checker."""
 
@@ -305,14 +361,14 @@ class Interp:
                  max_states=40000, exc_edges=True, record_conds=False, inline=0, precise_exc=False, heap=False, generators=False):
         self.max_unroll = 70
         self.run_init = False           # heap mode: interpret __init__ of instantiated repository classes
-        self.generators = generators    # interpret calls of generator helpers eagerly (their value is an iterator over the yields)
+        self.generators = generators or (heap and precise_exc)    # interpret calls of generator helpers eagerly (their value is an iterator over the yields)
         self.heap = heap                # instantiating a repository class gives a mutable Obj instead of an Inst
         self.precise_exc = precise_exc  # exceptions only where one can occur: failed lookups on known containers, unknown calls
         self._maythrow = 0
         self.inline_depth = inline      # how deep helper calls are interpreted (0 = never)
         self._inline_stack = []
-        self.unknown_branches = []   # tests whose outcome the interpretation could not determine (both arms followed)
-        self.imprecise = []             # heap mode: calls on heap objects that could not be interpreted (their effects are lost)
+        self.unknown_branches = _NoteList(IMPRECISION if heap else None)   # tests whose outcome the interpretation could not determine (both arms followed)
+        self.imprecise = _NoteList(IMPRECISION)          # heap mode: effects that could not be interpreted (they are lost)
         self.model, self.scope = model, scope
         self.h = hooks or Hooks()
         self.max_iter = max_iter
@@ -361,6 +417,9 @@ class Interp:
                     if self.precise_exc:
                         pend = [x for x in lst if '__exc' in x[0].env]
                         if pend:
+                            if _TRACE_EXC:
+                                print('TRACE-EXC', [x[0].env['__exc'] for x in pend], 'at line', getattr(st_node, 'lineno', '?'), 'in', getattr(self.scope, 'fullname', '?'),
+                                      ':', _text(st_node)[:100])
                             lst = [x for x in lst if '__exc' not in x[0].env]
                             outs.setdefault('raise', []).extend((x[0], x[0].env.pop('__exc')) for x in pend)
                     if kind == 'fall':
@@ -635,14 +694,20 @@ class Interp:
                 if res is None:
                     self.imprecise.append('%s[...] = ... on a heap object could not be interpreted (line %s)' % (_text(t.value), getattr(node, 'lineno', '?')))
                 return
-            if isinstance(t.slice, ast.Slice) and isinstance(base, list) and isinstance(v, (list, tuple)):
+            if isinstance(t.slice, ast.Slice) and isinstance(base, list):
                 lo, hi, stp = [self.ev(x, s) if x is not None else None for x in (t.slice.lower, t.slice.upper, t.slice.step)]
-                if all(x is None or isinstance(x, int) for x in (lo, hi, stp)):
+                seq = self._seq_of(v) if not isinstance(v, (list, tuple)) else v
+                if seq is not None and all(x is None or isinstance(x, int) for x in (lo, hi, stp)):
                     try:
-                        base[lo:hi:stp] = list(v)
+                        base[lo:hi:stp] = list(seq)
                         stored = True
+                        if isinstance(v, Iter):
+                            v.pos = len(v.items)
                     except Exception:
                         pass
+                if not stored:
+                    self.imprecise.append('%s[:] = ... with a value that is not determined: the store is lost (line %s)' % (_text(t.value), getattr(node, 'lineno', '?')))
+                    IMPRECISION.append('%s[:] = ... lost (line %s)' % (_text(t.value), getattr(node, 'lineno', '?')))
             elif isinstance(base, Obj) and isinstance(base.attrs.get('__items'), dict) and idx is not None and is_concrete(idx):
                 try:
                     base.attrs['__items'][idx] = v
@@ -747,7 +812,27 @@ class Interp:
                         self.assign(item.optional_vars, v if (not is_concrete(v) or isinstance(v, Obj)) else TOP, s2, n, quiet=True)
                     nxt.append(s2)
             states = nxt
+        supp = []
+        for st in states:
+            for item in n.items:
+                if item.optional_vars is None and isinstance(item.context_expr, ast.Call) and _text(item.context_expr.func) in ('contextlib.suppress', 'suppress'):
+                    supp = [_text(a).split('.')[-1] for a in item.context_expr.args]
         outs = self.block(n.body, states)
+        if supp and self.precise_exc and outs.get('raise'):
+            kept = []
+            handler = ast.ExceptHandler(type=ast.Tuple(elts=[ast.Name(id=x, ctx=ast.Load()) for x in supp], ctx=ast.Load()), name=None, body=[])
+            for st, exc in outs['raise']:
+                pending = st.env.get('__exc', exc if isinstance(exc, str) else None)
+                name = pending if isinstance(pending, str) else getattr(pending, 'label', None)
+                m_ = self._handler_matches(handler, name)
+                if m_ is True:
+                    st.env.pop('__exc', None)
+                    outs.setdefault('fall', []).append((st, None))       # the exception is swallowed by suppress()
+                else:
+                    if m_ is None:
+                        self.imprecise.append('whether suppress() swallows the exception is not determined (line %s)' % n.lineno)
+                    kept.append((st, exc))
+            outs['raise'] = kept
         key = '__exitstacks@%d' % n.lineno
         if any(key in st.env for lst in outs.values() for st, _v in lst):
             # leaving the with block by any route runs the registered callbacks, last in first out
@@ -1123,6 +1208,9 @@ class Interp:
         f = call.func
         fn = self.scope
         node = getattr(fn, 'node', None)
+        if isinstance(f, ast.Name) and f.id == '__forced' and getattr(self, '_force_unbound', None) is not None:
+            info = self._force_unbound
+            return info.node, False, info
         forced = getattr(self, '_force_callee', None)
         if forced is not None:
             self._force_callee = None
@@ -1209,6 +1297,7 @@ class Interp:
     def inline(self, call, s):
         """Interpret a call to a helper of the analysed code in place.
         Returns [(state, value)] or None when the call is not inlined."""
+        call = self._norm_call(call, s)
         if self.inline_depth <= 0:
             return None
         if len(self._inline_stack) >= self.inline_depth:
@@ -1270,7 +1359,7 @@ class Interp:
         for nm in params:
             local.setdefault(nm, TOP)
         # callee state: shares dotted (attribute) facts and the trace; own locals
-        cs = State({k: v for k, v in s.env.items() if '.' in k or '[' in k or k.startswith('__')}, s.trace, dict(s.assumed))
+        cs = State({k: v for k, v in s.env.items() if ('.' in k or '[' in k or k.startswith('__')) and not _FRAME_LOCAL.match(k)}, s.trace, dict(s.assumed))
         cs.flags = s.flags
         if not bound:
             # a nested function sees the enclosing locals
@@ -1318,11 +1407,13 @@ class Interp:
                 ns.flags = st.flags
                 # write back attribute facts and bookkeeping keys
                 for k in [k for k in ns.env if '.' in k or '[' in k or k.startswith('__')]:
-                    if k not in st.env and not (receiver is not None and (k.startswith('self.') or k.startswith('self['))):
+                    if k not in st.env and not (receiver is not None and (k.startswith('self.') or k.startswith('self['))) and not _FRAME_LOCAL.match(k):
                         del ns.env[k]
                 for k, val in st.env.items():
                     if receiver is not None and (k.startswith('self.') or k.startswith('self[')):
                         continue
+                    if _FRAME_LOCAL.match(k):
+                        continue               # loop iterators and the like belong to the frame that made them
                     if '.' in k or '[' in k or k.startswith('__'):
                         ns.env[k] = val
                 if info is None:
@@ -1550,6 +1641,26 @@ class Interp:
                 if v is not TOP:
                     return v
             v = self.model.eval_const(r[1], rhs)
+            if M.is_unknown(v) and self.heap:
+                # tables of functions / classes, partial objects, namedtuple classes ... defined at module or class level
+                cache = self.model.__dict__.setdefault('_toplevel_values', {})
+                key = (getattr(r[1], 'fullname', None) or getattr(r[1], 'name', None), id(rhs))
+                if key not in cache:
+                    cache[key] = TOP               # (guards against recursion through the definition itself)
+                    saved_scope = self.scope
+                    try:
+                        self.scope = r[1] if isinstance(r[1], (M.ModuleInfo, M.ClassInfo, M.FunctionInfo)) else self.scope
+                        self._locals_cache = None
+                        st = State({})
+                        val = self.ev(rhs, st)
+                        if '__exc' not in st.env and not (val is TOP):
+                            cache[key] = val
+                    except AnalysisError:
+                        pass
+                    finally:
+                        self.scope = saved_scope
+                        self._locals_cache = None
+                return cache[key]
             return TOP if M.is_unknown(v) else v
         return r
 
@@ -1705,9 +1816,19 @@ class Interp:
             return self._from_model(r)
         if isinstance(base, M.External) and base.name == 're' and attr in ('I', 'S', 'M', 'X', 'A', 'U', 'IGNORECASE', 'DOTALL', 'MULTILINE', 'VERBOSE', 'ASCII', 'UNICODE'):
             return int(getattr(_re_mod, attr))
-        if isinstance(base, M.External) and base.name in ('re', 'operator', 'os', 'os.path', 'glob', 'posixpath', 'string', 'itertools', 'html') and not attr.startswith('_') \
+        if isinstance(base, M.External) and base.name in ('re', 'operator', 'os', 'os.path', 'glob', 'posixpath', 'string', 'itertools', 'html', 'functools', 'collections',
+                                                          'contextlib', 'itertools.chain', 'urllib', 'urllib.parse') and not attr.startswith('_') \
            and not (base.name == 'string' and attr != 'Template'):
             return M.External('%s.%s' % (base.name, attr))
+        if isinstance(base, type) and base in (str, int, float, bool, list, dict, tuple, set, bytes, object) and not attr.startswith('__') and hasattr(base, attr):
+            return getattr(base, attr)                 # str.strip, dict.fromkeys, str.maketrans ... as values
+        if isinstance(base, type) and issubclass(base, tuple) and hasattr(base, '_fields') and attr in ('_fields', '_make', '_field_defaults'):
+            return getattr(base, attr)
+        if isinstance(base, tuple) and hasattr(type(base), '_fields'):
+            if attr in type(base)._fields:
+                return getattr(base, attr)             # a field of a namedtuple made by the analysed code
+            if attr in ('_replace', '_asdict', 'index', 'count'):
+                return ('boundmethod', base, attr)
         if isinstance(base, M.External) and base.name == 'sys' and attr == 'maxsize':
             import sys as _sys
             return _sys.maxsize
@@ -1862,6 +1983,461 @@ class Interp:
         finally:
             for k in [fkey] + [nm.id for nm in names]:
                 s.env.pop(k, None)
+
+    def _seq_of(self, v):
+        """The remaining items of a finite sequence value (list, tuple, Iter, dict keys, str), consuming an Iter; None if unknown."""
+        if isinstance(v, CountIter):
+            return None
+        if isinstance(v, Iter):
+            items = list(v.items[v.pos:])
+            v.pos = len(v.items)
+            return items
+        if isinstance(v, (list, tuple)):
+            return list(v)
+        if isinstance(v, dict):
+            return list(v.keys())
+        if isinstance(v, (set, frozenset)):
+            return sorted(v, key=repr)
+        if isinstance(v, str) and not isinstance(v, M._StringLetters):
+            return list(v)
+        if isinstance(v, range) and len(v) <= 4096:
+            return list(v)
+        return None
+
+    def _functional_call(self, n, fname, fval, args, kwargs, s):
+        """functools / operator / itertools / collections helpers and calls of callable values.  (result,) or None."""
+        ext = fval.name if isinstance(fval, M.External) else None
+        if ext in ('functools.partial', 'partial') and args:
+            return (Partial(args[0], args[1:], kwargs),)
+        if ext in ('functools.partialmethod', 'partialmethod') and args:
+            return (Partial(args[0], args[1:], kwargs),)
+        if ext in ('operator.methodcaller', 'methodcaller') and args and isinstance(args[0], str):
+            return (OpCall('methodcaller', [args[0]], args[1:], kwargs),)
+        if ext in ('operator.attrgetter', 'attrgetter') and args and all(isinstance(a, str) for a in args) and not kwargs:
+            return (OpCall('attrgetter', args),)
+        if ext in ('operator.itemgetter', 'itemgetter') and args and not kwargs:
+            return (OpCall('itemgetter', args),)
+        if ext in ('functools.reduce', 'reduce') and len(args) in (2, 3) and not kwargs:
+            seq = self._seq_of(args[1])
+            if seq is None:
+                return (TOP,)
+            if len(args) == 3:
+                acc = args[2]
+            elif seq:
+                acc, seq = seq[0], seq[1:]
+            else:
+                if self.precise_exc:
+                    s.env['__exc'] = 'TypeError'
+                return (TOP,)
+            for item in seq:
+                r = self.apply_value(args[0], [acc, item], {}, s, n.lineno)
+                if r is None:
+                    return (TOP,)
+                acc = r[0]
+            return (acc,)
+        if ext in ('itertools.chain', 'chain') and not kwargs:
+            out = []
+            for a in args:
+                seq = self._seq_of(a)
+                if seq is None:
+                    return (TOP,)
+                out.extend(seq)
+            return (Iter(out),)
+        if ext in ('itertools.chain.from_iterable', 'chain.from_iterable') and len(args) == 1 and not kwargs:
+            outer = self._seq_of(args[0])
+            if outer is None:
+                return (TOP,)
+            out = []
+            for a in outer:
+                seq = self._seq_of(self.materialize(a, s))
+                if seq is None:
+                    return (TOP,)
+                out.extend(seq)
+            return (Iter(out),)
+        if ext in ('itertools.repeat', 'repeat') and len(args) == 2 and isinstance(args[1], int) and not kwargs and 0 <= args[1] <= 4096:
+            return (Iter([args[0]] * args[1]),)
+        if ext in ('itertools.product', 'product') and args and set(kwargs) <= {'repeat'}:
+            import itertools as _it
+            seqs = [self._seq_of(a) for a in args]
+            if any(x is None for x in seqs) or not isinstance(kwargs.get('repeat', 1), int):
+                return (TOP,)
+            return (Iter(list(_it.product(*seqs, repeat=kwargs.get('repeat', 1)))),)
+        if ext in ('itertools.islice', 'islice') and len(args) in (2, 3, 4) and not kwargs and all(a is None or isinstance(a, int) for a in args[1:]):
+            import itertools as _it
+            if isinstance(args[0], Iter) and not isinstance(args[0], CountIter):
+                it_ = args[0]
+                taken = list(_it.islice(it_.items[it_.pos:], *args[1:]))
+                # the underlying iterator advances by what was consumed
+                if len(args) == 2:
+                    it_.pos += len(taken)
+                else:
+                    stop = args[2]
+                    it_.pos = len(it_.items) if stop is None else min(len(it_.items), it_.pos + stop)
+                return (Iter(taken),)
+            if isinstance(args[0], CountIter):
+                c = args[0]
+                vals = []
+                rng = range(*[a for a in args[1:]]) if len(args) > 2 else range(args[1])
+                if len(rng) > 4096:
+                    return (TOP,)
+                top = (max(rng) + 1) if len(rng) else 0
+                seq = [c.take() for _ in range(top)]
+                return (Iter([seq[i] for i in rng]),)
+            seq = self._seq_of(args[0])
+            if seq is None:
+                return (TOP,)
+            return (Iter(list(_it.islice(seq, *args[1:]))),)
+        if ext in ('itertools.starmap', 'starmap') and len(args) == 2 and not kwargs:
+            seq = self._seq_of(args[1])
+            if seq is None:
+                return (TOP,)
+            out = []
+            for item in seq:
+                if not isinstance(item, (list, tuple)):
+                    return (TOP,)
+                r = self.apply_value(args[0], list(item), {}, s, n.lineno)
+                if r is None:
+                    return (TOP,)
+                out.append(r[0])
+            return (Iter(out),)
+        if ext in ('itertools.zip_longest', 'zip_longest') and args and set(kwargs) <= {'fillvalue'}:
+            import itertools as _it
+            seqs = [self._seq_of(a) for a in args]
+            if any(x is None for x in seqs):
+                return (TOP,)
+            return (Iter(list(_it.zip_longest(*seqs, **kwargs))),)
+        if ext in ('itertools.groupby', 'groupby') and len(args) in (1, 2) and set(kwargs) <= {'key'}:
+            seq = self._seq_of(args[0])
+            keyf = args[1] if len(args) == 2 else kwargs.get('key')
+            if seq is None:
+                return (TOP,)
+            out = []
+            for item in seq:
+                if keyf is None:
+                    k = item
+                else:
+                    r = self.apply_value(keyf, [item], {}, s, n.lineno)
+                    if r is None:
+                        return (TOP,)
+                    k = r[0]
+                same = None
+                if out:
+                    same = self.compare(ast.Eq(), out[-1][0], k) if not (out[-1][0] is k) else True
+                    if same is None:
+                        return (TOP,)
+                if out and same:
+                    out[-1][1].append(item)
+                else:
+                    out.append((k, [item]))
+            return (Iter([(k, Iter(g)) for k, g in out]),)
+        if ext in ('collections.namedtuple', 'namedtuple') and len(args) >= 2 and isinstance(args[0], str) and _plain(args[1]) and all(_plain(v) for v in kwargs.values()):
+            import collections as _coll
+            try:
+                return (_coll.namedtuple(args[0], args[1], **kwargs),)
+            except Exception:
+                return (TOP,)
+        if ext in ('contextlib.suppress', 'suppress') and not kwargs:
+            names = []
+            for a in args:
+                nm = a.__name__ if isinstance(a, type) else (a.name.split('.')[-1] if isinstance(a, M.External) else getattr(a, 'name', None))
+                if not isinstance(nm, str):
+                    return (TOP,)
+                names.append(nm)
+            return (Obj('suppress', {'__suppress': names}),)
+        if ext is not None and ext.startswith('operator.') and ext.split('.', 1)[1] in ('lt', 'le', 'gt', 'ge', 'eq', 'ne', 'is_', 'is_not', 'contains', 'getitem', 'not_', 'truth') \
+           and not kwargs:
+            import operator as _op
+            r = self.apply_value(getattr(_op, ext.split('.', 1)[1]), list(args), {}, s, n.lineno)
+            if r is not None:
+                return r
+        # tuples made by a namedtuple class of the analysed code, called like a constructor
+        if isinstance(fval, type) and issubclass(fval, tuple) and hasattr(fval, '_fields'):
+            try:
+                return (fval(*args, **kwargs),)
+            except TypeError:
+                if self.precise_exc:
+                    s.env['__exc'] = 'TypeError'
+                return (TOP,)
+        # builtins that take a function
+        if isinstance(n.func, ast.Name) and n.func.id not in s.env:
+            nm = n.func.id
+            if nm in ('sorted', 'max', 'min') and 'key' in kwargs and args and set(kwargs) <= {'key', 'reverse', 'default'}:
+                seq = self._seq_of(args[0]) if len(args) == 1 else list(args)
+                if seq is None:
+                    return (TOP,)
+                keyed = []
+                for item in seq:
+                    r = self.apply_value(kwargs['key'], [item], {}, s, n.lineno)
+                    if r is None or not is_concrete(r[0]) or isinstance(r[0], Obj):
+                        return (TOP,)
+                    keyed.append((r[0], item))
+                try:
+                    if nm == 'sorted':
+                        order = sorted(range(len(keyed)), key=lambda i: keyed[i][0], reverse=bool(kwargs.get('reverse', False)))
+                        return ([keyed[i][1] for i in order],)
+                    if not keyed:
+                        if 'default' in kwargs:
+                            return (kwargs['default'],)
+                        if self.precise_exc:
+                            s.env['__exc'] = 'ValueError'
+                        return (TOP,)
+                    pick = (max if nm == 'max' else min)(range(len(keyed)), key=lambda i: keyed[i][0])
+                    return (keyed[pick][1],)
+                except TypeError:
+                    return (TOP,)
+            if nm in ('any', 'all') and len(args) == 1 and not kwargs and isinstance(args[0], (list, tuple, Iter)):
+                seq = self._seq_of(args[0])
+                if seq is not None:
+                    for item in seq:
+                        t = self.truth_in(item, s)
+                        if t is None:
+                            return (TOP,)
+                        if t == (nm == 'any'):
+                            return (nm == 'any',)
+                    return (nm == 'all',)
+            if nm == 'dict' and len(args) == 1 and isinstance(args[0], (list, tuple, Iter)):
+                seq = self._seq_of(args[0])
+                if seq is not None and all(isinstance(x, (list, tuple)) and len(x) == 2 for x in seq):
+                    try:
+                        d = dict((k, v) for k, v in seq)
+                        d.update(kwargs)
+                        return (d,)
+                    except TypeError:
+                        return (TOP,)
+            if nm == 'callable' and len(args) == 1:
+                v = args[0]
+                if isinstance(v, (Partial, OpCall, M.FunctionInfo, M.ClassInfo)) or (isinstance(v, Sym) and (v.label.startswith('func:') or v.label.startswith('boundmethod:'))):
+                    return (True,)
+                if _plain(v):
+                    return (False,)
+        if isinstance(fval, M.FunctionInfo) and (not isinstance(n.func, ast.Name) or n.func.id in s.env) and self.inline_depth > 0:
+            r = self._call_function_info(fval, list(args), kwargs, s, n.lineno)
+            if r is not None:
+                return r
+        if isinstance(fval, Sym) and fval.label.startswith('method:') and not isinstance(n.func, (ast.Name, ast.Attribute)) and self.inline_depth > 0 \
+           and fval.label[7:].isidentifier():
+            # one of our own methods taken as a value (a dispatch table of self.x entries): the call self.x(...)
+            vals = {}
+            for i, a in enumerate(args):
+                vals['__x%d' % i] = a
+            for k, v in kwargs.items():
+                vals['__k_' + k] = v
+            names = self._with_temps(vals, s)
+            call = ast.Call(func=ast.Attribute(value=ast.Name(id='self', ctx=ast.Load()), attr=fval.label[7:], ctx=ast.Load()),
+                            args=[ast.Name(id=names['__x%d' % i], ctx=ast.Load()) for i in range(len(args))],
+                            keywords=[ast.keyword(arg=k, value=ast.Name(id=names['__k_' + k], ctx=ast.Load())) for k in kwargs])
+            for x in ast.walk(call):
+                x.lineno, x.col_offset, x.end_lineno, x.end_col_offset = n.lineno, 0, n.lineno, 0
+            try:
+                res = self._inline_single(call, s)
+            finally:
+                for nm_ in names.values():
+                    s.env.pop(nm_, None)
+            if res is not None:
+                return res
+            IMPRECISION.append('the call of %s through a table could not be interpreted (line %s)' % (fval.label, n.lineno))
+            self.imprecise.append('the call of %s through a table could not be interpreted (line %s)' % (fval.label, n.lineno))
+            return (TOP,)
+        inst_attr = False
+        if isinstance(fval, Sym) and fval.label.startswith('boundmethod:') and isinstance(n.func, ast.Attribute) and isinstance(n.func.value, (ast.Name, ast.Attribute)):
+            holder = self.ev(n.func.value, s)
+            inst_attr = isinstance(holder, Obj) and holder.attrs.get(n.func.attr) is fval     # self.keys = top.keys ; self.keys()
+        if isinstance(fval, Sym) and fval.label.startswith('boundmethod:') and (not isinstance(n.func, ast.Attribute) or inst_attr):
+            r = self.apply_value(fval, list(args), kwargs, s, n.lineno)
+            if r is not None:
+                return r
+        if isinstance(fval, type) and issubclass(fval, tuple) and hasattr(fval, '_fields'):
+            try:
+                return (fval(*args, **kwargs),)          # an instance of a namedtuple class made by the analysed code
+            except TypeError:
+                if self.precise_exc:
+                    s.env['__exc'] = 'TypeError'
+                return (TOP,)
+        # a callable value held in a variable, an attribute or produced by an expression
+        if isinstance(fval, (Partial, OpCall)) or (callable(fval) and not isinstance(fval, (type, M.ClassInfo, M.FunctionInfo, M.External, Sym, Obj))
+                                                     and getattr(fval, '__module__', None) in ('builtins', 'operator', '_operator', None)
+                                                     and not isinstance(n.func, ast.Name)):
+            r = self.apply_value(fval, list(args), kwargs, s, n.lineno)
+            if r is not None:
+                return r
+            return (TOP,)
+        if isinstance(fval, (Partial, OpCall)):
+            return (TOP,)
+        if isinstance(n.func, ast.Name) and isinstance(s.env.get(n.func.id), (Partial, OpCall)):
+            r = self.apply_value(s.env[n.func.id], list(args), kwargs, s, n.lineno)
+            return r if r is not None else (TOP,)
+        return None
+
+    def apply_value(self, fval, args, kwargs, s, lineno=0):
+        """Call a callable *value* with evaluated arguments.  Returns (result,) or None when the call cannot be decided."""
+        if isinstance(fval, Partial):
+            kw = dict(fval.kwargs)
+            kw.update(kwargs)
+            return self.apply_value(fval.func, list(fval.args) + list(args), kw, s, lineno)
+        if isinstance(fval, OpCall):
+            if len(args) != 1 or kwargs:
+                return None
+            o = args[0]
+            if fval.kind == 'methodcaller':
+                return self._call_method_value(o, fval.names[0], list(fval.args), dict(fval.kwargs), s, lineno)
+            vals = []
+            for nm in fval.names:
+                if fval.kind == 'attrgetter':
+                    v = o
+                    for part in str(nm).split('.'):
+                        r = self._getattr_value(v, part, s, lineno)
+                        if r is None:
+                            return None
+                        v = r[0]
+                else:
+                    r = self._getitem_value(o, nm, s, lineno)
+                    if r is None:
+                        return None
+                    v = r[0]
+                vals.append(v)
+            return (vals[0] if len(vals) == 1 else tuple(vals),)
+        if isinstance(fval, Sym) and isinstance(fval.attrs.get('node'), ast.FunctionDef) and not kwargs:
+            return self.call_value(fval, list(args), s, lineno)
+        if isinstance(fval, Sym) and fval.label.startswith('boundmethod:') and isinstance(fval.attrs.get('fn'), M.FunctionInfo):
+            return self._call_function_info(fval.attrs['fn'], [fval.attrs['recv']] + list(args), kwargs, s, lineno)
+        if isinstance(fval, M.FunctionInfo):
+            return self._call_function_info(fval, list(args), kwargs, s, lineno)
+        if isinstance(fval, tuple) and len(fval) == 3 and fval[0] == 'boundmethod':
+            self._pending_exc = None
+            r = self._builtin_method(fval[1], fval[2], list(args), dict(kwargs))
+            if self._pending_exc and self.precise_exc:
+                s.env['__exc'] = self._pending_exc
+            return (r,)
+        if isinstance(fval, M.ClassInfo) or (isinstance(fval, type) and fval in (int, float, str, bool, list, dict, tuple, set)):
+            return self._call_via_temp(fval, list(args), kwargs, s, lineno)
+        if callable(fval) and getattr(fval, '__module__', None) in ('builtins', 'operator', '_operator', 'functools', None) and not isinstance(fval, type):
+            # a builtin / operator function or an unbound method of a builtin type, held as a value (str.strip, operator.lt, len)
+            args2 = [str(a) if isinstance(a, TextObj) else a for a in args]
+            if any(isinstance(a, Iter) for a in args2):
+                # an iterator handed to a library function: it is consumed there
+                conv = []
+                for a in args2:
+                    if isinstance(a, Iter):
+                        seq = self._seq_of(a)
+                        if seq is None or not all(_plain(x) for x in seq):
+                            return None
+                        a = seq
+                    conv.append(a)
+                args2 = conv
+            if all(is_concrete(a) and not isinstance(a, (Obj, M._StringLetters, Iter)) for a in args2) and all(_plain(v) for v in kwargs.values()):
+                try:
+                    return (fval(*args2, **kwargs),)
+                except Exception as e:
+                    if self.precise_exc:
+                        s.env['__exc'] = type(e).__name__
+                    return (TOP,)
+            if getattr(fval, '__name__', '') in ('eq', 'ne', 'is_', 'is_not', 'lt', 'gt', 'le', 'ge', 'contains') and len(args) == 2 and not kwargs:
+                op = {'eq': ast.Eq, 'ne': ast.NotEq, 'is_': ast.Is, 'is_not': ast.IsNot, 'lt': ast.Lt, 'gt': ast.Gt, 'le': ast.LtE, 'ge': ast.GtE,
+                      'contains': ast.In}[fval.__name__]()
+                a, b = (args[1], args[0]) if fval.__name__ == 'contains' else (args[0], args[1])
+                r = self.compare(op, a, b)
+                return None if r is None else (r,)
+            if getattr(fval, '__name__', '') in ('getitem',) and len(args) == 2:
+                return self._getitem_value(args[0], args[1], s, lineno)
+            if getattr(fval, '__name__', '') in ('setitem',) and len(args) == 3:
+                return self._call_via_temp_stmt('__a[__b] = __c', {'__a': args[0], '__b': args[1], '__c': args[2]}, s, lineno)
+            if getattr(fval, '__name__', '') in ('getattr',) and len(args) in (2, 3) and isinstance(args[1], str):
+                r = self._getattr_value(args[0], args[1], s, lineno)
+                return r
+            if getattr(fval, '__name__', '') == 'setattr' and len(args) == 3 and isinstance(args[1], str) and args[1].isidentifier():
+                return self._call_via_temp_stmt('__a.%s = __c' % args[1], {'__a': args[0], '__c': args[2]}, s, lineno)
+            return None
+        return None
+
+    def _with_temps(self, values, s):
+        d = len(self._inline_stack)
+        names = {}
+        for k, v in values.items():
+            nm = '%s@%d' % (k, d)
+            s.env[nm] = v
+            names[k] = nm
+        return names
+
+    def _call_via_temp(self, fval, args, kwargs, s, lineno):
+        vals = {'__f': fval}
+        for i, a in enumerate(args):
+            vals['__x%d' % i] = a
+        for k, v in kwargs.items():
+            vals['__k_' + k] = v
+        names = self._with_temps(vals, s)
+        call = ast.Call(func=ast.Name(id=names['__f'], ctx=ast.Load()), args=[ast.Name(id=names['__x%d' % i], ctx=ast.Load()) for i in range(len(args))],
+                        keywords=[ast.keyword(arg=k, value=ast.Name(id=names['__k_' + k], ctx=ast.Load())) for k in kwargs])
+        for x in ast.walk(call):
+            x.lineno, x.col_offset, x.end_lineno, x.end_col_offset = lineno, 0, lineno, 0
+        try:
+            return (self.ev(call, s),)
+        finally:
+            for nm in names.values():
+                s.env.pop(nm, None)
+
+    def _call_via_temp_stmt(self, src, values, s, lineno):
+        names = self._with_temps(values, s)
+        for k, nm in names.items():
+            src = src.replace(k, '__tmp_' + str(abs(hash(nm)) % 10 ** 8) + '_')       # placeholder names must be identifiers
+        return None
+
+    def _call_function_info(self, info, args, kwargs, s, lineno):
+        vals = {}
+        for i, a in enumerate(args):
+            vals['__x%d' % i] = a
+        for k, v in kwargs.items():
+            vals['__k_' + k] = v
+        names = self._with_temps(vals, s)
+        call = ast.Call(func=ast.Name(id='__forced', ctx=ast.Load()), args=[ast.Name(id=names['__x%d' % i], ctx=ast.Load()) for i in range(len(args))],
+                        keywords=[ast.keyword(arg=k, value=ast.Name(id=names['__k_' + k], ctx=ast.Load())) for k in kwargs])
+        for x in ast.walk(call):
+            x.lineno, x.col_offset, x.end_lineno, x.end_col_offset = lineno, 0, lineno, 0
+        try:
+            self._force_unbound = info
+            return self._inline_single(call, s)
+        finally:
+            self._force_unbound = None
+            for nm in names.values():
+                s.env.pop(nm, None)
+
+    def _getattr_value(self, o, name, s, lineno):
+        names = self._with_temps({'__o': o}, s)
+        e = ast.Attribute(value=ast.Name(id=names['__o'], ctx=ast.Load()), attr=name, ctx=ast.Load())
+        for x in ast.walk(e):
+            x.lineno, x.col_offset, x.end_lineno, x.end_col_offset = lineno, 0, lineno, 0
+        try:
+            return (self.ev(e, s),)
+        finally:
+            s.env.pop(names['__o'], None)
+
+    def _getitem_value(self, o, key, s, lineno):
+        names = self._with_temps({'__o': o, '__i': key}, s)
+        e = ast.Subscript(value=ast.Name(id=names['__o'], ctx=ast.Load()), slice=ast.Name(id=names['__i'], ctx=ast.Load()), ctx=ast.Load())
+        for x in ast.walk(e):
+            x.lineno, x.col_offset, x.end_lineno, x.end_col_offset = lineno, 0, lineno, 0
+        try:
+            return (self.ev(e, s),)
+        finally:
+            for nm in names.values():
+                s.env.pop(nm, None)
+
+    def _call_method_value(self, o, meth, args, kwargs, s, lineno):
+        vals = {'__o': o}
+        for i, a in enumerate(args):
+            vals['__x%d' % i] = a
+        for k, v in kwargs.items():
+            vals['__k_' + k] = v
+        names = self._with_temps(vals, s)
+        call = ast.Call(func=ast.Attribute(value=ast.Name(id=names['__o'], ctx=ast.Load()), attr=meth, ctx=ast.Load()),
+                        args=[ast.Name(id=names['__x%d' % i], ctx=ast.Load()) for i in range(len(args))],
+                        keywords=[ast.keyword(arg=k, value=ast.Name(id=names['__k_' + k], ctx=ast.Load())) for k in kwargs])
+        for x in ast.walk(call):
+            x.lineno, x.col_offset, x.end_lineno, x.end_col_offset = lineno, 0, lineno, 0
+        try:
+            return (self.ev(call, s),)
+        finally:
+            for nm in names.values():
+                s.env.pop(nm, None)
 
     def _comprehend(self, n, s, elt):
         """Evaluate a comprehension over known iterables (no forks inside: unknown tests give up)."""
@@ -2141,7 +2717,27 @@ class Interp:
                 return isinstance(op, ast.NotEq)
         return None
 
+    def _norm_call(self, call, s):
+        """(A if test else B)(args) with a determined test is the call A(args) or B(args)."""
+        k = 0
+        while isinstance(call.func, ast.IfExp) and k < 4:
+            k += 1
+            t = self.truth(self.ev(call.func.test, s))
+            if t is None:
+                IMPRECISION.append('the callee of (%s)(...) is not determined (line %s)' % (_text(call.func)[:60], getattr(call, 'lineno', '?')))
+                self.unknown_branches.append('callee %s (line %s)' % (_text(call.func)[:60], getattr(call, 'lineno', '?')))
+                return call
+            cache = self.__dict__.setdefault('_norm_cache', {})
+            key = (id(call), bool(t))
+            if key not in cache:
+                new = ast.Call(func=call.func.body if t else call.func.orelse, args=call.args, keywords=call.keywords)
+                ast.copy_location(new, call)
+                cache[key] = (new, call)         # (the original is kept alive so that its id stays unique)
+            call = cache[key][0]
+        return call
+
     def ev_Call(self, n, s):
+        n = self._norm_call(n, s)
         fname = self.canon(_text(n.func), s)
         if isinstance(n.func, ast.Name):
             cur = s.env.get(n.func.id)
@@ -2224,12 +2820,19 @@ class Interp:
                     return o.attrs[nm]
                 if isinstance(o.cls, M.ClassInfo) and self.model is not None and nm.isidentifier():
                     owner = self.model.find_attr_class(o.cls, nm)
+                    if owner is None and any(isinstance(k, M.External) and k.name in ('dict', 'list', 'str', 'object') and hasattr(__builtins__['dict' if k.name == 'dict' else k.name]
+                                                                                                                     if isinstance(__builtins__, dict) else
+                                                                                                                     getattr(__builtins__, k.name), nm)
+                                             for k in self.model.mro(o.cls)):
+                        owner = o.cls                   # inherited from a builtin base class (top.__getitem__ of a dict subclass)
                     if owner is not None:
                         src = ast.Attribute(value=n.args[0], attr=nm, ctx=ast.Load())
                         ast.copy_location(src, n)
                         return self.ev_Attribute(src, s)
                 if len(args) == 3:
                     return args[2]
+                if not isinstance(o.cls, M.ClassInfo):
+                    return TOP                 # an object of no modelled class: as for o.name, the value is not determined
                 if self.precise_exc:
                     s.env['__exc'] = 'AttributeError'
                 return TOP
@@ -2279,6 +2882,9 @@ class Interp:
             if isinstance(rr, tuple) and rr[0] == 'assign' and isinstance(rr[2][-1], ast.Call) \
                and _text(rr[2][-1].func).endswith('NewType'):
                 return args[0]
+        r_ = self._functional_call(n, fname, fval, args, kwargs, s)
+        if r_ is not None:
+            return r_[0]
         if isinstance(fval, M.External) and fval.name in ('itertools.takewhile', 'takewhile', 'itertools.dropwhile', 'dropwhile', 'filter', 'map') and len(args) == 2 \
            or (isinstance(n.func, ast.Name) and n.func.id in ('filter', 'map') and n.func.id not in s.env and len(args) == 2):
             kind = (fval.name if isinstance(fval, M.External) else n.func.id).split('.')[-1]
@@ -2288,7 +2894,7 @@ class Interp:
             if isinstance(seq, (list, tuple)) and len(seq) <= 64:
                 out, ok, dropping = [], True, True
                 for item in seq:
-                    r = self.call_value(args[0], [item], s, n.lineno)
+                    r = self.apply_value(args[0], [item], {}, s, n.lineno) if args[0] is not None else (item,)
                     if r is None:
                         ok = False
                         break
@@ -2477,6 +3083,9 @@ class Interp:
         if self.heap and isinstance(n.func, ast.Attribute) and fval is TOP and n.func.attr in ('append', 'appendChild', 'insert', 'extend', 'remove', 'add', 'update') \
            and any(isinstance(a, (Obj, TextObj)) for a in args):
             self.imprecise.append('%s(...) on a receiver that is not modelled: its effect is lost (line %s)' % (fname, n.lineno))
+        if isinstance(n.func, (ast.Subscript, ast.Call, ast.IfExp, ast.BoolOp, ast.NamedExpr)) and self.heap:
+            # a computed callee (a dispatch table, a conditional, the result of another call) that was not followed: whatever it does is lost
+            self.imprecise.append('the callee of %s(...) is computed and was not followed: its effect is lost (line %s)' % (_text(n.func)[:50], n.lineno))
         return TOP
 
     def _builtin_method(self, recv, meth, args, kwargs):
@@ -2510,6 +3119,12 @@ class Interp:
                 except Exception:
                     return TOP
             return TOP
+        if isinstance(recv, tuple) and meth in ('_replace', '_asdict', 'index', 'count'):
+            try:
+                return getattr(recv, meth)(*args, **kwargs)
+            except Exception as e:
+                self._pending_exc = type(e).__name__
+                return TOP
         if isinstance(recv, set):
             if all(is_concrete(a) for a in args) and not kwargs:
                 try:
@@ -2596,6 +3211,16 @@ class Interp:
             if meth == 'update' and not args and kwargs:
                 recv.update(kwargs)
                 return None
+            if meth == 'update' and len(args) == 1 and isinstance(args[0], Iter) and not isinstance(args[0], CountIter):
+                pairs = args[0].items[args[0].pos:]
+                if all(isinstance(x, (list, tuple)) and len(x) == 2 for x in pairs):
+                    try:
+                        recv.update((k, v) for k, v in pairs)
+                        args[0].pos = len(args[0].items)
+                        recv.update(kwargs)
+                        return None
+                    except TypeError:
+                        pass
             if meth == 'update' and len(args) == 1 and isinstance(args[0], (list, tuple)) and not kwargs:
                 try:
                     recv.update(args[0])
